@@ -139,7 +139,10 @@ def gen_script(rnd, tier):
                 xs = last_tuple[key]
             if kind == "dp":
                 last_tuple[key] = xs
-                L.append("dp %d : %s" % (o, " ".join(map(str, xs))))
+                L.append("dp %d%s : %s" % (o, " d" if rnd.random() < 0.2 else "", " ".join(map(str, xs))))      # ` d`: spelled provider(...)(ob)
+                if rnd.random() < 0.15:
+                    # ... and the CLASS object is given directly provided interfaces of its own (`@provider`): nothing else changes
+                    L.append("cprov %d%s : %s" % (objs[o], rnd.choice(["", " d"]), " ".join(map(str, rnd.sample(range(1, n + 1), rnd.randint(0, min(2, n)))))))
             elif kind == "also":
                 L.append("also %d : %s" % (o, " ".join(map(str, xs))))
             else:
@@ -177,6 +180,11 @@ def oracle(chk, lines, outs):
         def subclasses(c):
             return {k for k in S["pyb"] if c in c03.reach(S["pyb"], k)}
 
+        if op == "cprov":
+            chk.count("class_objects_given_directly_provided_interfaces")
+            if "CPROV-BAD" in out:
+                bad.append((i, "%s: %s" % (line, out.split("CPROV-BAD")[1].strip())))
+            continue
         if out.startswith("err ") or "MISMATCH" in out or out == "bad":
             bad.append((i, "%s -> %s" % (line, out)))
             continue
